@@ -174,7 +174,12 @@ def stepLine (s : S) (req resp : List String) : S × List String :=
           | _ => "repo"
         let (mem', memOut) := if s.impl != "mem" then (s.mem, mout)
                               else if ctx then (s.mem, (Mem.step {} s.mem now op).2) else Mem.step {} s.mem now op
-        let d := (compareOut op ctx out mout).map (s!"DIFF {tag} " ++ ·) ++
+        let relaxed := match op with
+          | .find q off lim =>
+            -- the SQL repository may order members of an equal-created_at group differently
+            if s.impl != "mem" && !ctx then some (Mon.c11 s.model.tasks false q off lim out) else none
+          | _ => none
+        let d := ((relaxed.getD (compareOut op ctx out mout))).map (s!"DIFF {tag} " ++ ·) ++
           (if memOut == mout then [] else [s!"DIFF memspec Impl.Mem answers {showOut memOut} but Spec.Repo {showOut mout}"])
         let exact := s.impl == "mem"
         let mons :=
